@@ -156,7 +156,7 @@ Windows(w, st, s0, e0) ==
 (* strings; a view of monomers only must answer as its displayed string does, and  *)
 (* trim_stop_codon returns the view self[:-3], which lies where SeqView says.      *)
 GC == INSTANCE GeneticCode WITH TableCodes <- {1}, SeqCodes <- {1}, MaxLen <- 0, OptLen <- 0, MaxCodons <- 0,
-                                PairCodons <- 0, LongLens <- {}, SymLen <- 0, inp <- <<>>
+                                PairCodons <- 0, OrfFamily <- FALSE, LongLens <- {}, SymLen <- 0, inp <- <<>>
 Translation ==
     IF ~IsStrict(D) THEN [ok |-> FALSE]
     ELSE [ok |-> TRUE,
